@@ -88,8 +88,25 @@ def run_one(mut, prop, tier, seed):
             return "NOT-APPLIED (%d occurrences)" % s.count(mut["old"]), ""
         open(p, "w").write(s.replace(mut["old"], mut["new"]))
         env = dict(os.environ, VPBT_REPO=d, VPBT_OUT=d, VERIF_SEED=str(seed))
-        r = subprocess.run(["/verif/check", prop, "--tier", tier, "--procs", os.environ.get("MUT_PROCS", "8")], env=env,
-                           cwd="/verif", capture_output=True, text=True)
+        # a mutant may make the code under test spin (e.g. a rate-control search that never terminates):
+        # bound the run and kill the whole process group; a timeout counts as "caught:hang" only if noted
+        import signal
+
+        env["VPBT_SHARD_TIMEOUT"] = os.environ.get("MUT_SHARD_TIMEOUT", "900")
+        pr = subprocess.Popen(["/verif/check", prop, "--tier", tier, "--procs", os.environ.get("MUT_PROCS", "8")], env=env,
+                              cwd="/verif", stdout=subprocess.PIPE, stderr=subprocess.PIPE, text=True, start_new_session=True)
+        try:
+            out, err = pr.communicate(timeout=float(os.environ.get("MUT_TIMEOUT", "1800")))
+        except subprocess.TimeoutExpired:
+            os.killpg(pr.pid, signal.SIGKILL)
+            pr.communicate()
+            return "TIMEOUT", "check did not finish (mutant makes the code under test spin?)"
+
+        class R(object):
+            pass
+
+        r = R()
+        r.returncode, r.stdout, r.stderr = pr.returncode, out, err
         buckets = [l.strip()[:150] for l in r.stdout.splitlines() if l.startswith("  bucket")]
         status = {0: "MISSED", 1: "caught", 2: "HARNESS-ERROR"}.get(r.returncode, "exit %d" % r.returncode)
         detail = buckets[0] if buckets else (r.stderr.strip().splitlines()[-1][:200] if r.returncode == 2 and r.stderr.strip() else "")
